@@ -42,12 +42,16 @@ META = {
                     'get_block_diag / scale_block_inverse / filter_operator: the Lean models are the dense definitions (exact '
                     'Moore-Penrose inverse, exact local inverse), compared with tolerance 1e-8',
                     'utility calls run in forked child processes: a call that kills the interpreter is reported with its input'],
-    'partial': ['truncate_row_spec: proved from a per-instance certificate (truncCheck, decided by the driver for every row of '
-                'every compared case and reported as sorted-ok); there is no proof that the literal quicksort model sorts '
-                'every input',
-                'filter_operator_row / penrose_unique / proj_constraint are Mathlib-matrix statements; the executable dense '
-                'models filterOp / Mat.pinv are tied to them per instance (exact re-check of A_f B = Bf and of the four '
-                'Penrose equations inside the driver) rather than by a refinement proof'],
+    'partial': ['truncate_rows: closed by extension E9 -- qsort_correct proves the literal quicksort model sorts every input '
+                '(fuel >= segment length - 1), truncate_row_spec_unconditional needs no certificate and '
+                'trunc_certificate_always shows the sorted-ok flag of the driver (still reported) can never be false',
+                'filter_operator: closed by extension E9 for the executable model -- model_inverse_exact (Mat.inv is an exact '
+                'left inverse) and filter_operator_model_constraint / filter_operator_residual_zero (every flagged row of '
+                'filterOp satisfies A_f B = Bf, i.e. the constraint-ok flag of the driver can never be broken for inputs '
+                'of consistent shape)',
+                'penrose_unique / proj_constraint are Mathlib-matrix statements; the executable Mat.pinv is tied to them per '
+                'instance (the four Penrose equations are decided exactly inside the model) rather than by a proof that the '
+                'rank-factorisation candidate always passes'],
     'assumptions': ['binary64 rounding is outside the model: exact comparison on dyadic inputs, tolerance 1e-9 where a quotient '
                     'or square root is not dyadic; complex moduli equal or within 1e-12 of a threshold are not judged',
                     'block pseudo-inverses (Jacobi SVD kernel / LAPACK gelss) are compared with the exact Moore-Penrose inverse '
